@@ -1,6 +1,6 @@
 (* Extraction of the executable models and specs to OCaml (ExtrOcamlBasic only). *)
 From Coq Require Import Extraction ExtrOcamlBasic.
-From Ubx Require Import Fields Base Checksum Frame ParserUbx ParserNmea CfgKeys FieldsSpec UbloxSpec Request ScriptBackend Backends Helpers.
+From Ubx Require Import Fields Base Checksum Frame ParserUbx ParserNmea CfgKeys FieldsSpec UbloxSpec Request ScriptBackend Backends Helpers Render Scan ScanBackend Gpsd.
 Extraction Language OCaml.
 Extraction "model.ml"
   N.add N.mul N.div N.modulo N.of_nat N.to_nat N.eqb N.ltb
@@ -12,6 +12,8 @@ Extraction "model.ml"
   oracle_decode oracle_zero_reserved
   run_requests new_srv base_registry
   tty_transmit tty_recover gpsd_transmit hexlify
+  render_frame render_cfg
+  scan scan_backend parse_chunks ginit
   enable_gnss disable_gnss gps_glonass gps_galileo_beidou set_rate_in_hz cfg_save cfg_reset
   warm_start cold_start rst_start rst_stop esfla_set lever_arm set_datetime sos_backup sos_clear
   pack_item_cfg unpack_item_cfg from_key valset_payload valget_poll_payload valget_decode.
